@@ -453,13 +453,62 @@ def shrink(c, sig):
     return dict(base, sample=np.array(rows, dtype=float))
 
 
+def large_sample(seed, n):
+    """a large sea-state like cloud, reproducible from (seed, n): replays name the generator instead of storing 1e5 rows"""
+    g = np.random.default_rng([int(seed), 3030])
+    hs = 0.9 + 2.8 * g.weibull(1.5, int(n))
+    tz = np.exp(0.1 + 1.49 * hs ** 0.19 + (0.04 + 0.175 * np.exp(-0.224 * hs)) * g.standard_normal(int(n)))
+    return np.column_stack([hs, tz])
+
+
+def large_cases(ctx):
+    """large samples with fine steps (oracle only: too large for a Coq case file): 1e5 .. 3e5 points, many directions --
+    an implementation that treats the directions in chunks sized by the sample shows its seams only here"""
+    rng = ctx.rng
+    specs = [(60000, 1, True), (250000, 5, True), (250000, 2, False)]          # (n, deg_step, supplied); the last: alpha = 100/n
+    if not ctx.quick():
+        specs += [(150000, 1, True), (300000, 3, True), (120000, 2.5, True), (200000, 4, False), (1000000, 10, True)]
+    out = []
+    for n, ds, supplied in specs:
+        seed = rng.randrange(2 ** 31)
+        n = n + (rng.randrange(0, 1000) if supplied else 0)
+        alpha = rng.choice([0.1, 0.02, 0.003]) if supplied else 100.0 / n
+        c = {"cloud": -2, "kind": "large", "gen": {"seed": seed, "n": n}, "sample": large_sample(seed, n), "alpha": alpha, "deg_step": ds,
+             "supplied": supplied, "n": None}
+        r = run_impl(c["sample"], alpha, ds, supplied, None)
+        out.append((c, r))
+    return out
+
+
+def shrink_large(c, sig):
+    """smaller n from the same generator while the same clause fails"""
+    best = c
+    n = c["gen"]["n"]
+    if not c["supplied"]:
+        return c
+    while n > 100:
+        n2 = n // 2
+        trial = dict(c, gen={"seed": c["gen"]["seed"], "n": n2}, sample=large_sample(c["gen"]["seed"], n2))
+        o = oracle(trial)
+        if o is None or o[0].get("clause") != sig.get("clause"):
+            break
+        best, n = trial, n2
+    return best
+
+
 def to_replay(c):
+    if "gen" in c:
+        return {"gen": c["gen"], "alpha": c["alpha"], "deg_step": c["deg_step"], "supplied": c["supplied"], "n": c["n"],
+                "note": "sample = harness.c03.large_sample(seed, n)"}
     return {"dtype": c.get("dtype"), "layout": c.get("layout"), "sample": [[float(a), float(b)] for a, b in c["sample"]], "alpha": c["alpha"], "deg_step": c["deg_step"],
             "supplied": c["supplied"], "n": c["n"]}
 
 
 def replay(ctx, d):
-    c = dict(d, sample=np.array(d["sample"], dtype=float))
+    if "gen" in d:
+        c = dict(d, sample=large_sample(d["gen"]["seed"], d["gen"]["n"]))
+    else:
+        c = dict(d, sample=np.array(d["sample"], dtype=float))
     o = oracle(c)
     if o:
         print("  ", o[1])
@@ -578,9 +627,10 @@ def run(ctx):
     stream = [(c, None) for c in corpus_cases()] + [(cases[i], results[i]) for i in order]
     ctx.notes["corpus_cases"] = len(stream) - len(order)
     try:
-        extra = real_model_cases(ctx)
+        extra = real_model_cases(ctx) + large_cases(ctx)
         stream += extra
         ctx.cov["evaluations"] += len(extra)
+        ctx.notes["large_samples"] = [(c["gen"]["n"], c["deg_step"], "supplied" if c["supplied"] else "drawn") for c, _ in extra if "gen" in c]
     except Exception as e:  # noqa
         ctx.notes["real_model_cases_error"] = repr(e)[:300]
     for c, r in stream:
@@ -596,7 +646,7 @@ def run(ctx):
         if key in seen_sig:
             continue
         seen_sig.add(key)
-        small = shrink(c, sig)
+        small = shrink_large(c, sig) if "gen" in c else shrink(c, sig)
         o2 = (oracle(small) if small is not c else None) or o
         if ctx.violation(o2[0], o2[1], to_replay(small)):
             found += 1
